@@ -304,9 +304,10 @@ class Check:
             self.broken.append("translator goaccess failed on /repo's sources: " + txt[-400:])
             return
         mod = "GenLock_%s" % self.pid
-        open(os.path.join(gen, mod + ".v"), "w").write(txt.replace("Definition table ", "Definition table_unused_here "))
+        open(os.path.join(gen, mod + ".v"), "w").write(txt)
         open(os.path.join(gen, mod + "Check.v"), "w").write("From VL Require Import Bytes Access LockFacts %s.\n"
-                                                            "Definition verdict := Eval vm_compute in lock_facts_ok callouts.\nPrint verdict.\n"
+                                                            "Definition verdict := Eval vm_compute in lock_facts_ok callouts && handler_writes_ok table.\nPrint verdict.\n"
+                                                            "Definition unlocked_writes := Eval vm_compute in filter (fun a => handler_write a && negb (a_locked a)) table.\nPrint unlocked_writes.\n"
                                                             "Definition held := Eval vm_compute in filter a_locked callouts.\nPrint held.\n" % mod)
         rc, o = sh("cd %s && timeout 300 coqc -Q . VL gen/%s.v && timeout 300 coqc -Q . VL gen/%sCheck.v" % (COQ, mod, mod), timeout=700)
         good = rc == 0 and re.search(r"verdict\s*=\s*true", o) is not None
